@@ -131,6 +131,8 @@ class Check:
             for c in cases:
                 if c.timeout == 120:
                     c.timeout = self.case_timeout
+                elif "VERIF_CASE_TIMEOUT" in os.environ:
+                    c.timeout = min(c.timeout, self.case_timeout)
             B = 64
             all_results_meta = []
             for i in range(0, len(cases), B):
